@@ -59,14 +59,17 @@ def check(ctx):
                            'silently replaced by the restored entry' % p.data['prim'])
         # refusal
         refusals = []
+
+        def occupied(c2, pol2):
+            pn = probe_result_of(c2)
+            return pn is not None and pol2 and g.n(pn).data['role'] == 'presence' and \
+                alt_ids(g.n(pn).data['args'][0]) == loc_ids
         for n in b.nodes('raise'):
-            for c, pol, a in guards(b, n.id):
-                c2, pol2 = unwrap_not(c, pol)
-                pn = probe_result_of(c2)
-                if pn is not None and pol2 and g.n(pn).data['role'] == 'presence' and \
-                        alt_ids(g.n(pn).data['args'][0]) == loc_ids and \
-                        not n.data.get('belief'):
-                    refusals.append(n)
+            if n.data.get('belief'):
+                continue
+            # (the test may sit in a helper that hands back a message or None)
+            if established(b, n.id, occupied):
+                refusals.append(n)
         refusals = list({n.id: n for n in refusals}.values())
         ctx.ob('R06.3', 'an occupied destination leads to a refusal (raise)', bool(refusals),
                node=m, message='no refusal is raised when the destination exists')
